@@ -71,7 +71,10 @@ where
     {
         self.0
             .run(features, cli)
-            .inspect(|item| exec::record_event(canon::canon(item)))
+            .inspect(|item| {
+                exec::record_event(canon::canon(item));
+                exec::keep_alive(item);
+            })
             .boxed_local()
     }
 }
